@@ -11,11 +11,15 @@
                                   universal types, read from the struct tags of the current source by
                                   go/ast) equals the RFC module transcribed by hand
     * `apptag_facts` (T)        : the application tag numbers the source uses equal RFC 4120's
-  Typed round trip `decode s (encode s v) = some v` for arbitrary typed values is NOT proved (it is the
-  nested-inductive induction over Ty/Val); it is carried by the correspondence run:
-  `typed_roundtrip_partial` below states and proves it for the primitive and one-level cases.
+    * `typed_roundtrip`         : `decode s (encode s v) = some v` for every type of the schema language
+                                  and every value of that type (mutual induction over the shared fuel,
+                                  Asn1/TypedProofs.lean); integers: `IntOK` holds for every
+                                  integer from -2^127 up (`int_ok_range`, Asn1/IntProofs.lean), which
+                                  covers every integer Kerberos can carry
 -/
 import Krb.Asn1.TlvProofs
+import Krb.Asn1.TypedProofs
+import Krb.Asn1.IntProofs
 import Krb.Asn1.Rfc4120
 import Krb.Model.Asn1Glue
 import Krb.Gen.Asn1Facts
@@ -203,21 +207,46 @@ theorem apptag_facts :
       ("EncAPRepPart", 27), ("EncKrbPrivPart", 28), ("EncKrbCredPart", 29), ("KRBError", 30)] := by
   decide
 
-/-! ## typed round trip (partial) -/
+/-! ## typed round trip -/
 
-/-- **typed_roundtrip_partial.** the schema-directed codec round-trips octet strings of any length
-    (primitive case of the full statement `decode s (encode s v) = some v`; the recursive cases are
-    exercised by the correspondence run, not proved) -/
-theorem typed_roundtrip_partial (b : Bytes) (h : b.length < 18446744073709551616) :
-    ofTLV 64 .octets (TLV.prim (univ 4) b) = some (.bytes b) ∧
-    decTLV 1 (encTLV (TLV.prim (univ 4) b)) = some (TLV.prim (univ 4) b, []) := by
-  constructor
-  · simp [ofTLV]
-  · have := decTLV_encTLV (TLV.prim (univ 4) b) ⟨⟨by simp [univ], by simp [univ]⟩, rfl, h⟩ 1
-      (by simp [depth]) []
-    simpa using this
+/-- **typed_roundtrip.** Decoding the DER encoding of a typed value returns the value: for every type
+    of the schema language (SEQUENCE with optional components under strictly increasing context tags,
+    SEQUENCE OF, EXPLICIT application / context tags, the primitive types), nested to any depth the
+    codec's fuel admits, every value of that type whose integers satisfy `IntOK`, provided the encoding
+    is a well-formed tree (tag numbers below 31, sizes below 2^64). -/
+theorem typed_roundtrip (ty : Ty) (v : Val) (b : Bytes) (hok : valOK 64 ty v)
+    (hwf : ∀ tlv, toTLV 64 ty v = some tlv → WFT tlv) (henc : encode ty v = some b) :
+    decode ty b = some v := Asn1.typed_roundtrip ty v b hok hwf henc
+
+/-- the tree level of it, for any fuel -/
+theorem typed_tlv_roundtrip (f : Nat) (ty : Ty) (v : Val) (tlv : TLV) (hok : valOK f ty v)
+    (henc : toTLV f ty v = some tlv) : ofTLV f ty tlv = some v := ofTLV_toTLV f ty v tlv hok henc
+
+/-- **int_nonneg_ok.** every non-negative integer round-trips through its minimal two's-complement
+    contents octets (so `IntOK` holds for every protocol number, nonce, time field and length) -/
+theorem int_nonneg_ok (n : Nat) : IntOK (n : Int) := intOK_nonneg n
+
+/-- **int_ok_range.** every integer from -2^127 up round-trips through the contents octets the encoder
+    writes: the minimal width is found, the sign octet is right, and the decoder's "no redundant leading
+    octet" rule never rejects the encoder's output (all 32 and 64 bit values are inside the range) -/
+theorem int_ok_range (i : Int) (h : -(2 ^ 127 : Nat) ≤ i) : IntOK i := intOK_of_ge i h
+
+example : IntOK (-133) ∧ IntOK (-2147483648) ∧ IntOK (-128) ∧ IntOK (-129) :=
+  ⟨int_ok_range _ (by decide), int_ok_range _ (by decide), int_ok_range _ (by decide), int_ok_range _ (by decide)⟩
+
+/-- RFC 4120's PrincipalName and EncryptedData: the component tags strictly increase, so the hypothesis
+    of the theorem is met by the schemas it is used with -/
+theorem tags_increase_facts :
+    tagsInc [Rfc.req 0 .int, Rfc.req 1 (.seqOf .gstring)] ∧
+    tagsInc [Rfc.req 0 .int, Rfc.opt 1 .int, Rfc.req 2 .octets] ∧
+    tagsInc [Rfc.req 0 .int, Rfc.req 1 .int, Rfc.req 2 .bits, Rfc.req 3 Rfc.ticket, Rfc.req 4 Rfc.encryptedData] := by
+  simp [tagsInc, Rfc.req, Rfc.opt]
 
 /-! non-vacuity -/
+/-- a PrincipalName value (name type 1, one component) meets the hypotheses of `typed_roundtrip` -/
+example : valOK 64 Rfc.principalName (.seq [some (.int 1), some (.list [.bytes [117, 115, 101, 114]])]) := by
+  simp [valOK, fieldsOK, listOK, tagsInc, Rfc.principalName, Rfc.req]
+  exact intOK_nonneg 1
 example : WFT (.cons (appTag 1) [.cons (univ 16 true) [.cons (ctxTag 0) [.prim (univ 2) [5]]]]) := by
   simp [WFT, WFTs, Tag.WF, appTag, univ, ctxTag, encTLVs, encTLV, encLen]
 
